@@ -250,6 +250,12 @@ class Sim:
             PYTHONDONTWRITEBYTECODE="1",
         )
         self.env.pop("VSIM_ZYGOTE", None)
+        for k in ("JADE_JOB_NAME", "JADE_RUNTIME_OUTPUT", "JADE_SUBMISSION_GROUP"):
+            self.env.pop(k, None)
+        if scen.get("inherit_env"):
+            # the submission is itself started from inside a JADE job (nested use, pipelines): every process of it - the
+            # user's commands and, as sbatch exports the caller's environment, the batches - inherits the outer job's variables
+            self.env.update(JADE_JOB_NAME="outer-job", JADE_RUNTIME_OUTPUT="/elsewhere/outer-output", JADE_SUBMISSION_GROUP="outer-group")
         os.makedirs(self.env["HOME"], exist_ok=True)
         self.t0 = time.time()
         self.wall_limit = scen.get("wall_limit", 120)
